@@ -154,7 +154,9 @@ def build_engine_config(cfg: dict):
     from schemathesis.generation import GenerationConfig, GenerationMode
 
     phases = [PhaseName.from_str(p) for p in cfg.get("phases", ["examples", "coverage", "fuzzing", "stateful"])]
-    hs_kwargs: dict[str, Any] = {"deadline": None, "database": None}
+    hs_kwargs: dict[str, Any] = {"deadline": None}
+    if cfg.get("database") != "default":
+        hs_kwargs["database"] = None  # else: the user's default, i.e. Hypothesis' on-disk database under ./.hypothesis
     if cfg.get("max_examples") is not None:
         hs_kwargs["max_examples"] = cfg["max_examples"]
     if cfg.get("step_count") is not None:
